@@ -109,10 +109,10 @@ LOOKALIKES = ['1e5', '12e4', '0e1', '2E-3', '1E3', '-1e2', '1_000', '0o17', '017
 def spice(draw: t.Any, v: t.Any, depth: int = 0) -> t.Any:
     """Replace some strings by non-ASCII / multi-line ones (validity is re-checked by the caller)."""
     if isinstance(v, str) and draw(st.booleans()):
-        k = draw(st.integers(0, 3))
-        if k == 3:
+        k = draw(st.integers(0, 5))
+        if k >= 4:
             return draw(st.sampled_from(LOOKALIKES))
-        return draw(st.sampled_from(HOSTILE if k == 2 else SPICE)) + (v if draw(st.booleans()) else '')
+        return draw(st.sampled_from(HOSTILE if k >= 2 else SPICE)) + (v if draw(st.booleans()) else '')
     if isinstance(v, list) and depth < 5:
         return [spice(draw, x, depth + 1) for x in v]
     if isinstance(v, dict) and depth < 5:
@@ -409,6 +409,8 @@ def suites(tier: str) -> t.List[Suite]:
     S_ = ('s', 'str')
     texty = st.sampled_from([S_, ('seq', 'List', S_), ('map', 'Dict', S_, S_), ('union', 'Union', (('s', 'float'), S_)), ('s', 'any'),
                              ('struct', (('a', S_), ('b', ('seq', 'List', S_)))), ('seq', 'List', ('union', 'Union', (('s', 'int'), S_)))])
+    from .. import cg
+    texty = st.one_of(texty, cg.class_specs(st.sampled_from([S_, ('seq', 'List', S_), ('map', 'Dict', S_, S_)]), max_fields=3, hooks=False))
     return [Suite('io', check, strategy=lambda: cases(gen.all_type_specs(leaves)), examples=6000 if big else 500, budget_s=480 if big else 40, render=render),
             Suite('lookalike-strings', check, strategy=lambda: cases(texty), examples=1500 if big else 150, budget_s=90 if big else 15, render=render),
             Suite('scalar-documents', check, strategy=lambda: cases(roots), examples=600 if big else 60, budget_s=60 if big else 10, render=render)]
